@@ -1,0 +1,7 @@
+//go:build verif
+
+package ringbuffer
+
+// VerifReset empties the built-in ring pool and forgets its calibration (add-only, tag verif), so
+// that what the next Get returns is determined by the harness and not by earlier activity.
+func VerifReset() { builtinPool = Pool{} }
